@@ -312,6 +312,23 @@ func runC16(rc *RunCtx) {
 				}
 			}
 		}
+		// owners attach records to their live names (a renewal later on extends a name with records like any other)
+		if rc.Chance(0.25) && len(pool) > 0 {
+			full := pool[rc.Intn(len(pool))]
+			if P := w.st.Names[full]; P != nil && P.live(h) {
+				if o := idx(P.Owner); o >= 0 {
+					if _, ok := w.Do(o, &rnstypes.MsgAddRecord{Creator: c.Accs[o].Bech, Name: full, Record: rc.PickS([]string{"app", "www", "pay"}), Value: c.Accs[rc.Intn(nacc)].Bech, Data: "{}"}); !ok {
+						return
+					}
+					// and renew right away or soon after
+					if rc.Chance(0.5) {
+						if !register(o, full, rc.Pick([]int64{1, 2})) {
+							return
+						}
+					}
+				}
+			}
+		}
 		// an early transfer creates a previous owner distinct from the owner
 		if h <= 2 {
 			for _, s := range seeds {
